@@ -127,6 +127,8 @@ def main() -> int:
     ap.add_argument("--tier", default="quick")
     ap.add_argument("--props")
     ap.add_argument("--seed", default="0")
+    ap.add_argument("--match", help="all: only seeded ids matching this regular expression")
+    ap.add_argument("--record", action="store_true", help="all: record clause / tier of a catch in meta.json")
     a = ap.parse_args()
     if a.cmd == "adopt":
         return adopt(a.dir, a.id, a.property, a.skip_suite)
@@ -136,6 +138,8 @@ def main() -> int:
         bad = []
         for name in sorted(os.listdir(base)):
             d = os.path.join(base, name)
+            if not os.path.isdir(d):
+                continue
             meta = json.load(open(os.path.join(d, "meta.json")))
             r = check(d, a.tier, a.props.split(",") if a.props else meta["checks"], a.seed)
             bad += [(name, p_, v) for p_, v in r.items() if v["exit"] != 0]
@@ -153,15 +157,25 @@ def main() -> int:
         return 0 if all(v["exit"] == 1 for v in r.values()) else 1
     rows = []
     base = os.path.join(VERIF, "seeded")
+    import re
     for name in sorted(os.listdir(base)):
         d = os.path.join(base, name)
         if not os.path.exists(os.path.join(d, "meta.json")):
+            continue
+        if a.match and not re.search(a.match, name):
             continue
         meta = json.load(open(os.path.join(d, "meta.json")))
         prop = meta.get("check_property", meta["property"])
         tier = "thorough" if meta.get("caught_by", "").endswith("thorough") else a.tier
         r = check(d, tier, [prop], a.seed)
         rows.append((name, prop, r[prop]))
+        if a.record and r[prop]["exit"] == 1:  # write what was observed into the meta file
+            meta["caught_by"] = f"{prop} {tier}"
+            meta["clause"] = r[prop]["clause"].replace("clause:", "").strip()
+            meta.setdefault("what_i_ran", {})["check"] = (
+                f"tools/seeded.py check --props {prop} --tier {tier} (VERIF_SEED={a.seed}): exit 1, {meta['clause']}, "
+                f"{r[prop]['seconds']}s wall")
+            json.dump(meta, open(os.path.join(d, "meta.json"), "w"), indent=1)
     caught = sum(1 for _, _, r in rows if r["exit"] == 1)
     print(f"[all] {caught}/{len(rows)} seeded changes caught at tier {a.tier}")
     for name, prop, r in rows:
